@@ -12,6 +12,7 @@ mod fam_direct;
 mod fam_obs;
 mod fam_round2;
 mod fam_round3;
+mod fam_round4;
 
 pub type O = Out<BufWriter<File>>;
 
@@ -96,12 +97,14 @@ fn main() {
             fam_round2::upper_signed_entries(&mut o, tier, &mut rng);
             fam_round3::declared_builtin_names(&mut o, tier, &mut rng);
             fam_round3::request_targets(&mut o, 5, tier, &mut rng);
+            fam_round4::blank_conditional_headers(&mut o, 5, &mut rng);
             fam_round2::broad(&mut o, 5, tier, &mut rng);
         }
         "c11" => {
             fam_rules::c11(&mut o, tier, &mut rng);
             fam_round2::fold_signed_proxy_headers(&mut o, tier, &mut rng);
             fam_round3::host_values(&mut o, 11, tier, &mut rng);
+            fam_round4::unsigned_coding_headers(&mut o, 11, &mut rng);
             fam_round3::large_counts_upto(&mut o, 11, tier, &mut rng, fam_round3::LC_HEADERS | fam_round3::LC_HEADER_VALUES, 256);
             fam_round2::broad(&mut o, 11, tier, &mut rng);
         }
@@ -116,6 +119,7 @@ fn main() {
             fam_round3::bom_bodies(&mut o, 12, tier, &mut rng);
             fam_round3::methods_folding(&mut o, 12, tier, &mut rng);
             fam_round3::content_type_quoting(&mut o, 12, tier, &mut rng);
+            fam_round4::raw_reserved_in_bodies(&mut o, 12, &mut rng);
             fam_round2::broad(&mut o, 12, tier, &mut rng);
         }
         "c13" => {
@@ -127,6 +131,7 @@ fn main() {
             fam_round2::io_errors_and_recovery(&mut o, 13, tier, &mut rng);
             fam_round3::degenerate_fields(&mut o, 13, tier, &mut rng);
             fam_round3::tab_padded_values(&mut o, 13, tier, &mut rng);
+            fam_round4::path_defects_everywhere(&mut o, 13, &mut rng);
             fam_round2::broad(&mut o, 13, tier, &mut rng);
         }
         "c14" => {
